@@ -23,7 +23,7 @@ LEAVES = ['int64'] * 3 + ['float64'] * 3 + ['bool', 'int8', 'uint8', 'int32', 'u
 
 
 def cases(rng, tier):
-    n = 1500 if tier == 'quick' else 30000
+    n = 15000 if tier == 'quick' else 300000
     out = []
     for i in range(n):
         a = G.gen_array(rng, depth=rng.choice([1, 2, 2, 3, 3]), canonical_too=False,
